@@ -560,6 +560,14 @@ func c17R5(c *Ctx, rule string) {
 // removes it, and is left only when Front() is nil. (An element that stays in
 // the list is later dropped by the commit arm without an answer.)
 func c17R6(c *Ctx, rule string) {
+	// an errorFuture (the answer of every refused enqueue) reports its error
+	if ef := c.Fn(rule, "(errorFuture).Error"); ef != nil {
+		ok := false
+		for _, ret := range engine.RawReturnsOf(ef) {
+			ok = c.P.D(engine.ReturnValues(ret)[0]) == "recv.err"
+		}
+		c.Check(rule, "errorFuture.Error:returns-its-error", c.P.Pos(ef.Pos()), "a refused call's future resolves at once with the refusal's error", ok, pick(ok, "returns recv.err", "returns something else"), 1)
+	}
 	fn := c.Fn(rule, "(*Raft).restoreUserSnapshot")
 	if fn == nil {
 		return
